@@ -13,6 +13,7 @@ fn reorient<const FW: u16, const FH: u16, const FAST: bool>(
     let mut cfg = any_cfg();
     let (co, ro) = (any_color_order(), any_refresh());
     let mut d = build_opts::<_, u8, 0, FAST>(VModel::<Rgb565, FW, FH>::new(), world, probe, &cfg, co, ro)?;
+    let o0 = cfg.o;
     let o1 = any_orientation();
     let o2 = any_orientation();
     let two: bool = kani::any();
@@ -34,7 +35,7 @@ fn reorient<const FW: u16, const FH: u16, const FAST: bool>(
         assert!(c.pixels == 0, "[C10] set_orientation writes no pixels");
         c.arm();
     }
-    kani::cover!(two && o1 != o2 && o2 != cfg.o, "cover: two distinct changes");
+    kani::cover!(two && o1 != o2 && o2 != o0 && o1 != o0, "cover: two distinct changes");
     Some((d, cfg))
 }
 
